@@ -98,6 +98,11 @@ def decompose_two_qubit_interaction_into_four_fsim_gates(
             result.append(b_decomposition)
         else:
             result.append(op)
+    if isinstance(fsim_gate, ops.ISwapPowGate) and fsim_gate.global_shift != 0:
+        # The mapped FSimGate has no global shift: undo the phase of every ISwapPowGate used.
+        uses = sum(1 for op in result.all_operations() if op.gate == fsim_gate)
+        shift_phase = np.exp(1j * np.pi * fsim_gate.global_shift * fsim_gate.exponent)
+        result.append(ops.global_phase_operation(shift_phase**-uses))
     return result
 
 
